@@ -52,7 +52,14 @@ def gen_seed(rng):
         return rng.choice([0, 1, -1, 2 ** 63, -2 ** 40, 2 ** 130 + 7])
     if r < 0.9:
         return rng.randint(-2 ** 31, 2 ** 31)
-    return rng.choice(["seed", "", "another seed"])
+    return rng.choice(["seed", "", "another seed", "experiment-A", {"bytes": "7265706c69636174652d37"}, 2.5, -0.0])
+
+
+def real_seed(seed):
+    """Scenario encoding -> the object handed to Model(seed=...); bytes travel as {"bytes": hex}."""
+    if isinstance(seed, dict):
+        return bytes.fromhex(seed["bytes"])
+    return seed
 
 
 def gen_op(rng):
@@ -124,14 +131,14 @@ def execute(sc, ctx):
     if h:
         ctx.fault("ambient.other_model_builder")
         ctx.probe("environment_handed_to_another_model")
-        ref_t = handover_trace(sc["seed"], h["other_builder_seed"], 0, h)
-        got_t = handover_trace(sc["seed"], h["builder_seed"], h["pre_queries"], h)
+        ref_t = handover_trace(real_seed(sc["seed"]), real_seed(h["other_builder_seed"]), 0, h)
+        got_t = handover_trace(real_seed(sc["seed"]), real_seed(h["builder_seed"]), h["pre_queries"], h)
         ctx.event("handover", ref_t[:3])
         ctx.check(got_t == ref_t, "trajectory-depends-on-previous-model",
                   lambda: f"after Environment.set_model the picks of the new model (seed {sc['seed']!r}) depend on the builder "
                           f"model's seed / earlier draws: {got_t[:4]} vs {ref_t[:4]}")
     cfg = sc["cfg"]
-    seed = sc["seed"]
+    seed = real_seed(sc["seed"])
     key = json.dumps(cfg, sort_keys=True)
     altkey = json.dumps(sc["alt_cfg"], sort_keys=True)
     chaos.HOOK["fn"] = None
@@ -142,7 +149,7 @@ def execute(sc, ctx):
     shuffles = sum(1 for e in ref_trace if e[0] == "shuffle" and len(e[2]) >= 3)
     if any(e[0] == "fpick" and len(e[3]) >= 2 for e in ref_trace):
         ctx.probe("filtered_pick_2plus_candidates")
-    if isinstance(seed, str):
+    if isinstance(seed, (str, bytes)):
         ctx.probe("string_seed")
     if cfg["world"] != "plain":
         ctx.probe("spatial_world")
@@ -185,7 +192,7 @@ def execute(sc, ctx):
     target = chaos.ChaosModel(seed, key)
     for o in sc["others"]:
         k = key if o["same_cfg"] else altkey
-        others.append({"m": chaos.ChaosModel(o["seed"], k), "seed": o["seed"], "key": k})
+        others.append({"m": chaos.ChaosModel(real_seed(o["seed"]), k), "seed": real_seed(o["seed"]), "key": k})
     inside = {}
     between = {}
     for p in sc["perturb"]:
@@ -266,8 +273,11 @@ def post_batch(tier, seed):
     for i in range(n):
         rng = random.Random(run_seed(seed, "C07-cross", i))
         jobs.append([gen_seed(rng), chaos.gen_cfg(rng, tier)])
+    # label seeds are legal (random.Random hashes str/bytes deterministically): always include a few
+    for i, lab in enumerate(["experiment-A", {"bytes": "7265706c69636174652d37"}, "run #12"]):
+        jobs[i][0] = lab
     chaos.HOOK["fn"] = None
-    here = [chaos.ChaosModel(s, json.dumps(c, sort_keys=True)).run_all() for s, c in jobs]
+    here = [chaos.ChaosModel(real_seed(s), json.dumps(c, sort_keys=True)).run_all() for s, c in jobs]
     hashseeds = [0, 1, 4242] if tier == "quick" else [0, 1, 2, 3, 5, 8, 13, 21, 34, 55, 89, 144, 233, 377, 610, 4242]
     for hs in hashseeds:
         got = _fresh("direct", jobs, hs)
